@@ -553,7 +553,62 @@ def install(lib):
             return Arr(z3.Lambda([j], j), n)
         raise Unsupported("arange(lo, hi)")
 
-    common = dict(arange=np_arange, array=np_array, asarray=np_asarray, where=np_where, clip=np_clip, roll=np_roll, take=np_take, maximum=np_maximum, minimum=np_minimum,
+    def np_interp(ex, x, xp, fp):
+        """jnp.interp(x, xp, fp): piecewise-linear interpolation through the knots (xp[k], fp[k]), clamped outside; xp non-decreasing"""
+        used(ex, "jnp.interp(x, xp, fp): piecewise linear through the knots, constant outside [xp[0], xp[-1]]; xp must be non-decreasing (segment-witness axioms)")
+        if not (isinstance(x, Arr) and isinstance(xp, Arr) and isinstance(fp, Arr)):
+            raise Unsupported("interp on non-arrays")
+        n = xp.n
+        uid = next(ex.fresh_n)
+        if fp.sort() != REAL:
+            # integer / opaque leaves: the interpolated value is cast back to the leaf's dtype - not modelled numerically
+            val = z3.Function(f"interp_cast!{uid}", INT, fp.sort())
+            jv = z3.Int("j!ew")
+            return Arr(z3.Lambda([jv], val(jv)), x.n)
+        val = z3.Function(f"interp_val!{uid}", INT, REAL)
+        seg = z3.Function(f"interp_seg!{uid}", INT, INT)
+        jv = z3.Int("j!ip")
+        q = z3.Select(x.a, jv)
+        X = lambda t: z3.Select(xp.a, t)
+        F = lambda t: z3.Select(fp.a, t)
+        k = seg(jv)
+        ex.assume(z3.ForAll([jv], z3.Implies(z3.And(0 <= jv, jv < x.n), z3.And(
+            z3.Implies(q <= X(0), val(jv) == F(0)),
+            z3.Implies(q >= X(n - 1), val(jv) == F(n - 1)),
+            z3.Implies(z3.And(X(0) < q, q < X(n - 1)), z3.And(0 <= k, k < n - 1, X(k) <= q, q <= X(k + 1), X(k) < X(k + 1),
+                                                           val(jv) * (X(k + 1) - X(k)) == F(k) * (X(k + 1) - q) + F(k + 1) * (q - X(k)))))),
+            patterns=[val(jv)]))
+        ex.ghost.setdefault("interp", []).append(dict(x=x, xp=xp, fp=fp, val=val, seg=seg))
+        jw = z3.Int("j!ew")
+        return Arr(z3.Lambda([jw], val(jw)), x.n)
+
+    class _ArgWhere:
+        def __init__(self, r):
+            self.r = r
+
+        def pyvc_getitem(self, ex, i):
+            if i == (0, 0) or i == 0:
+                return self.r
+            raise Unsupported("argwhere index")
+
+    def np_argwhere(ex, cond, size=None, fill_value=None):
+        used(ex, "jnp.argwhere(c, size=1, fill_value=f)[0, 0] = first index where c holds, f if none")
+        if size != 1 or not isinstance(cond, Arr):
+            raise Unsupported("argwhere other than size=1 on a 1-D array")
+        r = ex.fresh("argwhere", INT)
+        jv = z3.Int("j!aw")
+        f = toz(fill_value)
+        c = lambda t: z3.Select(cond.a, t)
+        ex.assume(z3.Or(z3.And(r == f, z3.ForAll([jv], z3.Implies(z3.And(0 <= jv, jv < cond.n), z3.Not(c(jv))))),
+                        z3.And(0 <= r, r < cond.n, c(r), z3.ForAll([jv], z3.Implies(z3.And(0 <= jv, jv < r), z3.Not(c(jv)))))))
+        return _ArgWhere(r)
+
+    def np_ones(ex, shape=(), **k):
+        if shape == () or shape == []:
+            return 1.0
+        raise Unsupported("ones(shape)")
+
+    common = dict(interp=np_interp, argwhere=np_argwhere, ones=np_ones, arange=np_arange, array=np_array, asarray=np_asarray, where=np_where, clip=np_clip, roll=np_roll, take=np_take, maximum=np_maximum, minimum=np_minimum,
                   isnan=np_isnan, ceil=np_ceil, floor=np_floor, sqrt=np_sqrt, zeros_like=np_zeros_like, ones_like=np_ones_like,
                   logical_and=np_logical("and"), logical_or=np_logical("or"), logical_not=np_logical_not, exp=np_exp, log=np_log, tanh=np_tanh,
                   arctanh=np_arctanh, abs=b_abs, square=lambda ex, x: ex.binop(ast.Mult(), x, x),
@@ -652,6 +707,17 @@ def install(lib):
             return ex.call(tf, list(ops), {})
         return ex.call(ff, list(ops), {})
 
+    def lax_dynamic_slice(ex, x, start, sizes):
+        used(ex, "jax.lax.dynamic_slice(x, [s], [w]) = x[s':s'+w] with the start clamped into [0, len - w] (JAX semantics)")
+        if not isinstance(x, Arr) or len(start) != 1 or len(sizes) != 1:
+            raise Unsupported("dynamic_slice on other than a 1-D leading axis")
+        w = toz(sizes[0])
+        s0 = toz(start[0])
+        ex.oblige("dynamic-slice-size-fits", z3.And(w >= 0, w <= x.n), kind="safety")
+        sc = z3.If(s0 < 0, 0, z3.If(s0 > x.n - w, x.n - w, s0))
+        jv = z3.Int("j!ew")
+        return Arr(z3.Lambda([jv], z3.Select(x.a, sc + jv)), w)
+
     def lax_fori_loop(ex, lo, hi, body, init):
         h = ex.opts.get("fori_loop")
         if h is None:
@@ -666,10 +732,11 @@ def install(lib):
         used(ex, "jax.lax.scan(f, c, xs) folds f over the leading axis of xs and stacks the per-step outputs (fold contract; f verified on an arbitrary carry)")
         return h(ex, f, init, xs, length)
 
-    lax = NS("jax.lax", {"cond": lax_cond, "stop_gradient": lambda ex, x: x, "fori_loop": lax_fori_loop, "scan": lax_scan})
+    lax = NS("jax.lax", {"cond": lax_cond, "stop_gradient": lambda ex, x: x, "fori_loop": lax_fori_loop, "scan": lax_scan, "dynamic_slice": lax_dynamic_slice})
     rnd = NS("jax.random", {})
     jaxns = NS("jax", {"tree_util": tree_util, "lax": lax, "numpy": jnp, "random": rnd, "Array": TypeTag("jax.Array"),
                        "tree_map": tree_map, "tree_leaves": tree_leaves})
+    jaxns.entries["dtypes"] = NS("jax.dtypes", {"canonicalize_dtype": lambda ex, d: d})
     jaxns.entries["errors"] = NS("jax.errors", {"TracerArrayConversionError": TypeTag("TracerArrayConversionError")})
     lib.ns["jax"] = jaxns
     lib.ns["jax.tree_util"] = tree_util
